@@ -93,10 +93,13 @@ def st_gram():
                "list/tuple/slice indexes, Partial*, Single*, noise kernels, QARBF; nodes + * ** DiffTransform ADKernel "
                "SpinSymKernel built through operators or classes), hyper-parameters inside their bounds, some 'fixed'; X 2-12 "
                "rows x 2-6 features drawn element-wise with duplicated and far-apart rows, Y 1-8 rows sharing a point with X; "
-               "on every sub-kernel: K(X,X) symmetric (1e-12), PSD (lambda_min >= -1e-9 lambda_max), K(X,Y)=K(Y,X)^T, "
-               "diag(X)=diag K(X), K(X)=K(X,X) when no noise term; non-trivial = composite node or non-sklearn leaf and >= 3 "
-               "distinct rows; distinct by (expression shape, config classes, n, nf)",
-          tolerances={"sym_rtol": 1e-12, "psd_rel": 1e-9, "diag_rtol": 1e-12})
+               "additive orders 0..min(5, number of features); on every sub-kernel: K(X,X) symmetric (1e-12), PSD (lambda_min "
+               ">= -1e-9 lambda_max), K(X,Y)=K(Y,X)^T, diag(X)=diag K(X), K(X)=K(X,X) when no noise term; 1e-12 is relative, "
+               "entry by entry, to max(largest entry, forward error model of the expression: sum of absolute terms of signed "
+               "sums, Newton-Girard intermediates of additive kernels); non-trivial = composite node or non-sklearn leaf and "
+               ">= 3 distinct rows; distinct by (expression shape, config classes, n, nf)",
+          tolerances={"sym_rtol": 1e-12, "psd_rel": 1e-9, "diag_rtol": 1e-12,
+                      "why": "rounding-level identities (DESIGN 3.5); the error model only ever loosens the scale"})
 def gram(case, ctx):
     spec = case["kernel"]
     X, Y = _XY(case, spec)
@@ -465,7 +468,8 @@ def st_theta():
                "deep copy through the scikit-learn theta setter, as the repository's tests do); kernels that document "
                "NotImplementedError for eval_gradient (DiffAntisymRBF) must raise exactly that; non-trivial as gram and "
                ">= 1 free hyper-parameter",
-          tolerances={"fd_rtol": 1e-6, "value_rtol": 1e-13})
+          tolerances={"fd_rtol": 1e-6, "value_rtol": 1e-13,
+                      "fd_floor": "4e-14 * R / h with R the forward error model of K (so cancellation noise of K is never judged)"})
 def theta_grad(case, ctx):
     spec = case["kernel"]
     X, _ = _XY(case, spec)
@@ -525,8 +529,10 @@ def st_input():
                "AddRQ, AddLLRBF, AntisymRBF, Partial*, Subset*, SpinSym*; nodes + * ** DiffTransform); on every sub-kernel "
                "k_and_deriv(X,Y)[0] == kernel(X,Y), the gradient has shape (nX,nY,nfeat) as documented and equals the two-step "
                "4th-order finite difference of kernel(X+h e_f, Y) per feature; k_and_deriv(X) (Y=None) equals "
-               "k_and_deriv(X, copy of X) (documented convention: Y stationary); non-trivial as gram",
-          tolerances={"fd_rtol": 1e-6, "value_rtol": 1e-13})
+               "k_and_deriv(X, copy of X) (documented convention: Y stationary; not asserted below a white-noise factor, which "
+               "is delta_ij only for Y=None); PartialRBF/PartialARBF failures are collapsed into one class each; "
+               "non-trivial as gram",
+          tolerances={"fd_rtol": 1e-6, "value_rtol": 1e-13, "fd_floor": "4e-14 * R / h, R = forward error model of K"})
 def input_grad(case, ctx):
     spec = case["kernel"]
     X, Y = _XY(case, spec)
